@@ -332,7 +332,12 @@ class FakeSnowflakeCursor:
                     self._conn.database_set = False
                     self._conn.schema_set = False
 
-                elif cmd == "DROP SCHEMA" and ident == self._conn.schema:
+                elif (
+                    cmd == "DROP SCHEMA"
+                    and ident == self._conn.schema
+                    # the schema's database is the current one (sqlglot parses the name of a schema into db/catalog)
+                    and (transformed.this.catalog or self._conn.database) == self._conn.database
+                ):
                     self._conn.schema = None
                     self._conn.schema_set = False
 
